@@ -30,6 +30,13 @@ func (p *Pool) Get() any {
 	}
 	s.mu.Lock()
 	free := s.poolFree[p]
+	if s.PoolSticky && len(free) > 0 {
+		obj := free[len(free)-1]
+		s.poolFree[p] = free[:len(free)-1]
+		s.C["pool_reuse"]++
+		s.mu.Unlock()
+		return obj
+	}
 	// 0 = fresh; i>0 = free[i-1], biased towards reuse of the most recently
 	// released objects.
 	w := make([]int, len(free)+1)
